@@ -619,7 +619,7 @@ fn op_strategy() -> impl Strategy<Value = Op> {
         4 => (k.clone(), offset_strategy()).prop_map(|(k, o)| Op::Sus(k, o)),
         4 => (k.clone(), 1u32..14).prop_map(|(k, s)| Op::Tournament(k, s)),
         3 => k.clone().prop_map(Op::LinearRank),
-        3 => (k.clone(), prop_oneof![Just(0.5), Just(0.9), Just(0.1), 0.01f64..0.99]).prop_map(|(k, b)| Op::ExponentialRank(k, Fb::of(b))),
+        3 => (k.clone(), prop_oneof![3 => Just(0.5), 3 => Just(0.9), 3 => Just(0.1), 6 => 0.01f64..0.99, 2 => Just(f64::EPSILON), 1 => Just(1.0 - f64::EPSILON)]).prop_map(|(k, b)| Op::ExponentialRank(k, Fb::of(b))),
         2 => (1u32..3).prop_map(Op::DERand),
         2 => (1u32..3).prop_map(Op::DEBest),
         3 => (1u32..3).prop_map(Op::DECurrentToBest),
@@ -653,6 +653,10 @@ fn case_strategy() -> impl Strategy<Value = Case> {
                 pop.resize(*k as usize, (3, 1));
             }
             Op::CloneSingle(_) if fit % 2 == 0 => pop.truncate(1),
+            // the smallest base with many distinct ranks: the rank weights span hundreds of orders of magnitude
+            Op::ExponentialRank(_, b) if b.f() == f64::EPSILON && fit % 2 == 0 => {
+                pop = (0..(22 + fit % 40) as u16).map(|i| (i, (i as i16 - 20) as i8)).collect();
+            }
             _ => {}
         }
         Case { op, pop, scale: Fb::of(scale), seed, direct, below, base: Fb::of(base), nudges, distractor }
